@@ -21,6 +21,9 @@ fields("Function", param_types="Seq[Type]", ret_type="Type")
 fields("Variance", value="Int")
 fields("JavaBuiltin", primitive="Bool")
 fields("GroovyBuiltin", primitive="Bool")
+global_var("src.ir.types.Invariant", "Variance")
+global_var("src.ir.types.Covariant", "Variance")
+global_var("src.ir.types.Contravariant", "Variance")
 bound(a="Type", b="Type", S="Type", T="Type", U="Type", W="Type", s="Type", t="Type", p="TypeParameter", X="TypeParameter", i="Int", j="Int")
 
 
@@ -68,6 +71,12 @@ def Valid(t: "Type") -> "Bool":
         (cast(t, "WildCardType").bound is None or Valid(cast(t, "WildCardType").bound))
         and ((cast(t, "WildCardType").variance.value == 0) == (cast(t, "WildCardType").bound is None))),
         triggers=[Valid(t)]))
+
+
+@ghost
+def VarianceConstants(k: "Int") -> "Bool":
+    """module constants of src/ir/types.py: Invariant = Variance(0), Covariant = Variance(1), Contravariant = Variance(2)"""
+    axiom("values", Invariant.value == 0 and Covariant.value == 1 and Contravariant.value == 2)
 
 
 @ghost
